@@ -206,7 +206,8 @@ def _loops_in_order(fd):
 
 
 class LoopSpec:
-    def __init__(self, inv=None, modifies=(), types=None, name=None, at_head=None, at_end=None):
+    def __init__(self, inv=None, modifies=(), types=None, name=None, at_head=None, at_end=None, ghost_havoc=None):
+        self.ghost_havoc = ghost_havoc  # havocs harness-level ghost state the loop body modifies
         self.at_head = at_head  # called at the start of the iteration path (lemma instances); its
         self.at_end = at_end    # result is handed to at_end(ns, token) after the body (one-step effect)
         self.inv = inv
@@ -412,6 +413,9 @@ class Interp:
         return hostmodels.host_getattr(self, v, name)
 
     def setattr(self, v, name, val):
+        if isinstance(v, SRef) and CTX.ghost.get("sref_setattr") is not None:
+            CTX.ghost["sref_setattr"](v, name, val)
+            return
         if isinstance(v, VObj):
             a, _ = v.cls.lookup(name)
             if isinstance(a, PropertyVal):
@@ -507,7 +511,7 @@ class Interp:
                 if lst.is_concrete() and len(lst.items) == 1 and isinstance(n, SInt):
                     # [c] * n with symbolic n
                     from .values import _elem_unwrap
-                    kind = "int" if _zint(lst.items[0]) is not None else "ref"
+                    kind = "int" if _zint(lst.items[0]) is not None else ("optint" if lst.items[0] is None else "ref")
                     r = VList(None, z3.If(n.t > 0, n.t, 0), z3.K(z3.IntSort(), _elem_unwrap(kind, lst.items[0])), kind)
                     return r
             raise OutOfSubset("list operator %s" % type(op).__name__)
@@ -582,6 +586,10 @@ class Interp:
             if isinstance(op, ast.NotEq):
                 return a is not b
             raise PyRaise(TypeError("'%s' not supported between instances" % type(op).__name__))
+        if (isinstance(a, SRef) or isinstance(b, SRef)) and CTX.ghost.get("sref_compare") is not None and isinstance(op, (ast.Eq, ast.NotEq, ast.Lt, ast.LtE, ast.Gt, ast.GtE)):
+            r = CTX.ghost["sref_compare"](type(op).__name__, a, b)
+            if r is not NotImplemented:
+                return r
         if isinstance(a, (tuple, VList)) and isinstance(b, (tuple, VList)) and type(a) is type(b):
             return self.seq_compare(op, a, b)
         if isinstance(a, Opaque) or isinstance(b, Opaque):
@@ -649,7 +657,18 @@ class Interp:
         if a is NotImplemented or b is NotImplemented:
             return a is b
         if isinstance(a, (int, SInt)) and isinstance(b, (int, SInt)):
-            return a == b  # small-int identity is not relied upon by the code under contract
+            # CPython: `x is y` on ints implies x == y; the converse is only guaranteed for the cached
+            # small ints [-5, 256]; otherwise the outcome is unspecified (a fresh boolean)
+            eq = a == b
+            if isinstance(eq, bool) and not eq:
+                return False
+            if CTX.mode != "sym":
+                return a is b
+            za = _zint(a)
+            small = z3.And(za >= -5, za <= 256)
+            unk = z3.Bool(CTX.fresh_name("int_identity"))
+            eqt = z3.BoolVal(True) if eq is True else eq.t
+            return mk_bool(z3.And(eqt, z3.Or(small, unk)))
         return a is b
 
     def contains(self, container, x):
@@ -1178,6 +1197,8 @@ class Interp:
             self._opaque_loop(s, scope, it, spec, key)
 
     def _havoc(self, scope, names, spec, unset_unknown=True):
+        if spec is not None and getattr(spec, "ghost_havoc", None) is not None:
+            spec.ghost_havoc()
         for nm in sorted(names):
             cur = scope.vars.get(nm, _MISSING)
             ty = spec.types.get(nm) if spec else None
@@ -1371,9 +1392,12 @@ class Interp:
         if which == 0:
             if not self.truthy(c):
                 raise PathEnd("guard false on iteration path")
+            token = spec.at_head(NS(scope, old, {})) if spec.at_head is not None else None
             r = self._run_body(s.body, scope)
             if r == "break":
                 return
+            if spec.at_end is not None:
+                spec.at_end(NS(scope, old, {}), token)
             self._check_inv(spec, scope, old, {}, "preserve", key)
             raise PathEnd("loop preservation path")
         else:
